@@ -307,24 +307,13 @@ fn c08_gap_other_sizes() {
     gap_trip::<60, 2>(64);
 }
 
-// @check props=C08 tier=quick
-// @desc NACK_FRAG with writerSN full i64, count full i32, FragmentNumberSet base up to u32::MAX - 33 and members {base, base+2, base+32, base+33} (numBits 34): ids, sequence number, set and count round-trip; the bitmap words on the wire are 0xa0000000, 0xc0000000 (RTPS bit order: offset i <-> bit 31 - i%32 of word i/32); octetsToNextHeader = 36
-// @bounds membership pattern concrete (the real FragmentNumberSet decoder materialises members in a Vec: a symbolic bitmap is not tractable, see C07), base symbolic; message 60 bytes; unwind 64
-// @assume base <= u32::MAX - 33 (no member overflows u32, cf. KF-C07-2); the set value is obtained from the real element decoder on a harness-written image
-// @enc rtps_messages::overall_structure::RtpsMessageWrite::new
-// @enc rtps_messages::overall_structure::RtpsMessageRead::try_from
-// @enc rtps_messages::submessage_elements::FragmentNumberSet::try_read_from_bytes
-// @enc rtps_messages::submessages::nack_frag::NackFragSubmessage::try_from_bytes
-#[kani::proof]
-#[kani::unwind(64)]
-fn c08_nack_frag() {
+fn nack_frag_trip(base: u32) {
     let header = any_header();
-    let base: u32 = kani::any();
-    kani::assume(base <= u32::MAX - 33);
     let set = fn_set_34(base);
     let s = NackFragSubmessage::new(any_entity_id(), any_entity_id(), kani::any(), set.clone(), kani::any());
     let w = encode(&header, &[&s]);
     let mut img: [u8; 60] = image(w.buffer(), &header, NACK_FRAG, Some(1));
+    pin_u32(&mut img, 40, base, "C08: NACK_FRAG bitmapBase on the wire");
     pin_u32(&mut img, 44, 34, "C08: NACK_FRAG numBits on the wire");
     pin_u32(&mut img, 48, 0xa000_0000, "C08: NACK_FRAG bitmap word 0 (offsets 0 and 2)");
     pin_u32(&mut img, 52, 0xc000_0000, "C08: NACK_FRAG bitmap word 1 (offsets 32 and 33)");
@@ -335,7 +324,7 @@ fn c08_nack_frag() {
             assert!(d.reader_id() == s.reader_id() && d._writer_id() == s._writer_id(), "C08: NACK_FRAG ids");
             assert!(d.writer_sn() == s.writer_sn() && d.count() == s.count(), "C08: NACK_FRAG sequence number / count");
             assert!(*d.fragment_number_state() == set, "C08: NACK_FRAG set differs after the round trip");
-            kani::cover!(base > 0xf000_0000 && d.writer_sn() < 0, "a large fragment base and a negative sequence number round-trip");
+            kani::cover!(d.count() == i32::MIN && d.writer_sn() < 0, "count = i32::MIN and a negative sequence number round-trip");
             core::mem::forget(dd);
         }
         Err(_) => assert!(false, "C08: NACK_FRAG produced by dust-dds is rejected by its own decoder"),
@@ -343,12 +332,35 @@ fn c08_nack_frag() {
     core::mem::forget(w);
 }
 
+// @check props=C08 tier=quick
+// @desc NACK_FRAG with writerSN full i64, count full i32, ids symbolic and the FragmentNumberSet {base, base+2, base+32, base+33} (numBits 34) for base = 1: ids, sequence number, set and count round-trip; the bitmap words on the wire are 0xa0000000, 0xc0000000 (RTPS bit order: offset i <-> bit 31 - i%32 of word i/32); octetsToNextHeader = 36
+// @bounds set fully concrete (base 1; FragmentNumberSet::new derives numBits from `member - base`, which stays symbolic for a symbolic base and makes every encoder length symbolic; the decoder materialises members in a Vec and is not tractable with a symbolic bitmap, see C07); all other fields symbolic; message 60 bytes; unwind 64
+// @enc rtps_messages::overall_structure::RtpsMessageWrite::new
+// @enc rtps_messages::submessage_elements::FragmentNumberSet::new
+// @enc rtps_messages::submessage_elements::FragmentNumberSet::try_read_from_bytes
+// @enc rtps_messages::submessages::nack_frag::NackFragSubmessage::try_from_bytes
+#[kani::proof]
+#[kani::unwind(64)]
+fn c08_nack_frag() {
+    nack_frag_trip(1);
+}
+
+// @check props=C08 tier=thorough
+// @desc NACK_FRAG as c08_nack_frag with base = 0xffffff00 (largest members close to u32::MAX)
+// @bounds as c08_nack_frag
+// @enc rtps_messages::overall_structure::RtpsMessageWrite::new
+// @enc rtps_messages::submessages::nack_frag::NackFragSubmessage::try_from_bytes
+#[kani::proof]
+#[kani::unwind(64)]
+fn c08_nack_frag_high_base() {
+    nack_frag_trip(0xffff_ff00);
+}
+
 /// DATA round trip. `qos`: Some(value length) = inline QoS flag set with one parameter of that
 /// many (multiple of 4) symbolic value bytes; `P` payload bytes (symbolic); N = message size.
 fn data_trip<const N: usize, const P: usize>(qos: bool, d_flag: bool, k_flag: bool, n_flag: bool) {
     let header = any_header();
-    let pid: i16 = kani::any();
-    kani::assume(pid != 1);
+    let pid: i16 = 0x0070; // PID_KEY_HASH; a symbolic id keeps the sentinel branch of the parameter reader alive and does not finish
     let pval: [u8; 4] = kani::any();
     let params: Vec<Parameter> = if qos { alloc::vec![Parameter::new(pid, Arc::from(&pval[..]))] } else { Vec::new() };
     let payload: [u8; P] = kani::any();
@@ -396,9 +408,9 @@ fn data_trip<const N: usize, const P: usize>(qos: bool, d_flag: bool, k_flag: bo
 }
 
 // @check props=C08 tier=quick
-// @desc DATA without inline QoS (flags D) and a 5-byte payload (not a multiple of 4), and DATA with inline QoS (one parameter: symbolic id != sentinel, 4 symbolic value bytes), key flag, non-standard-payload flag and a 4-byte payload: flags, ids, writerSN (full i64), parameter and payload bytes round-trip; octetsToNextHeader = 20 [+ 12] + payload length
+// @desc DATA without inline QoS (flags D) and a 5-byte payload (not a multiple of 4), and DATA with inline QoS (one parameter: id 0x0070, 4 symbolic value bytes), key flag, non-standard-payload flag and a 4-byte payload: flags, ids, writerSN (full i64), parameter and payload bytes round-trip; octetsToNextHeader = 20 [+ 12] + payload length
 // @bounds payload 5 / 4 symbolic bytes, <= 1 parameter of 4 bytes; messages 49 / 60 bytes; unwind 64
-// @assume parameter id != PID_SENTINEL (1); parameter value length a multiple of 4 (values are padded on the wire otherwise)
+// @assume parameter id concrete (0x0070); parameter value length a multiple of 4 (values are padded on the wire otherwise)
 // @enc rtps_messages::overall_structure::RtpsMessageWrite::new
 // @enc rtps_messages::overall_structure::RtpsMessageRead::try_from
 // @enc rtps_messages::submessages::data::DataSubmessage::try_from_bytes
@@ -414,7 +426,7 @@ fn c08_data() {
 // @check props=C08 tier=thorough
 // @desc DATA: no payload flags (neither D nor K: no payload on the wire), inline QoS only; D with inline QoS and an 8-byte payload; empty payload with D
 // @bounds payload 0 / 8 bytes, <= 1 parameter of 4 bytes; unwind 68
-// @assume parameter id != PID_SENTINEL (1)
+// @assume parameter id concrete (0x0070)
 // @enc rtps_messages::overall_structure::RtpsMessageWrite::new
 // @enc rtps_messages::overall_structure::RtpsMessageRead::try_from
 #[kani::proof]
@@ -427,8 +439,7 @@ fn c08_data_other_shapes() {
 
 fn data_frag_trip<const N: usize, const P: usize>(qos: bool, k_flag: bool, n_flag: bool) {
     let header = any_header();
-    let pid: i16 = kani::any();
-    kani::assume(pid != 1);
+    let pid: i16 = 0x0070;
     let pval: [u8; 4] = kani::any();
     let params: Vec<Parameter> = if qos { alloc::vec![Parameter::new(pid, Arc::from(&pval[..]))] } else { Vec::new() };
     let payload: [u8; P] = kani::any();
@@ -488,7 +499,7 @@ fn c08_data_frag() {
 // @check props=C08 tier=thorough
 // @desc DATA_FRAG with inline QoS (one 4-byte parameter), non-standard-payload flag, 3-byte payload (not a multiple of 4)
 // @bounds payload 3 bytes, 1 parameter; message 71 bytes; unwind 76
-// @assume parameter id != PID_SENTINEL (1)
+// @assume parameter id concrete (0x0070)
 // @enc rtps_messages::overall_structure::RtpsMessageWrite::new
 // @enc rtps_messages::overall_structure::RtpsMessageRead::try_from
 #[kani::proof]
@@ -502,9 +513,16 @@ fn c08_data_frag_inline_qos() {
 // multi-byte fields most significant byte first, flag E clear) decode to the same values.
 // ------------------------------------------------------------------------------------------
 
+fn put(b: &mut [u8], at: usize, v: &[u8]) {
+    let mut i = 0;
+    while i < v.len() {
+        b[at + i] = v[i];
+        i += 1;
+    }
+}
 fn be_sn(b: &mut [u8], at: usize, sn: i64) {
-    b[at..at + 4].copy_from_slice(&((sn >> 32) as i32).to_be_bytes());
-    b[at + 4..at + 8].copy_from_slice(&(sn as u32).to_be_bytes());
+    put(b, at, &((sn >> 32) as i32).to_be_bytes());
+    put(b, at + 4, &(sn as u32).to_be_bytes());
 }
 
 // @check props=C08 tier=quick
@@ -522,21 +540,21 @@ fn c08_big_endian_decode() {
     let (first_sn, last_sn, count): (i64, i64, i32) = (kani::any(), kani::any(), kani::any());
     {
         let mut b = [0u8; 52];
-        b[..4].copy_from_slice(b"RTPS");
+        put(&mut b, 0, b"RTPS");
         b[4] = 2;
         b[5] = 4;
         b[6] = 1;
         b[7] = 20;
-        b[8..20].copy_from_slice(&prefix);
+        put(&mut b, 8, &prefix);
         b[20] = HEARTBEAT;
         b[21] = 0b010; // E clear, final set
         b[22] = 0;
         b[23] = 28;
-        b[24..28].copy_from_slice(&rid);
-        b[28..32].copy_from_slice(&wid);
+        put(&mut b, 24, &rid);
+        put(&mut b, 28, &wid);
         be_sn(&mut b, 32, first_sn);
         be_sn(&mut b, 40, last_sn);
-        b[48..52].copy_from_slice(&count.to_be_bytes());
+        put(&mut b, 48, &count.to_be_bytes());
         match RtpsMessageRead::try_from(&b[..]) {
             Ok(m) => {
                 assert!(m.header().guid_prefix() == prefix && m.submessages().len() == 1, "C08: big-endian message header / count");
@@ -557,23 +575,23 @@ fn c08_big_endian_decode() {
     {
         let (w0, w1): (i32, i32) = (kani::any(), kani::any());
         let mut b = [0u8; 56];
-        b[..4].copy_from_slice(b"RTPS");
+        put(&mut b, 0, b"RTPS");
         b[4] = 2;
         b[5] = 4;
         b[6] = 1;
         b[7] = 20;
-        b[8..20].copy_from_slice(&prefix);
+        put(&mut b, 8, &prefix);
         b[20] = ACKNACK;
         b[21] = 0b000;
         b[22] = 0;
         b[23] = 32;
-        b[24..28].copy_from_slice(&rid);
-        b[28..32].copy_from_slice(&wid);
+        put(&mut b, 24, &rid);
+        put(&mut b, 28, &wid);
         be_sn(&mut b, 32, first_sn);
-        b[40..44].copy_from_slice(&33u32.to_be_bytes());
-        b[44..48].copy_from_slice(&w0.to_be_bytes());
-        b[48..52].copy_from_slice(&w1.to_be_bytes());
-        b[52..56].copy_from_slice(&count.to_be_bytes());
+        put(&mut b, 40, &33u32.to_be_bytes());
+        put(&mut b, 44, &w0.to_be_bytes());
+        put(&mut b, 48, &w1.to_be_bytes());
+        put(&mut b, 52, &count.to_be_bytes());
         match RtpsMessageRead::try_from(&b[..]) {
             Ok(m) => {
                 assert!(m.submessages().len() == 1, "C08: big-endian message count");
